@@ -385,3 +385,5 @@ PLAN["C17"]["kani_jobs"] = {"quick": 12, "thorough": 8}
 # (first match wins: the n = 7 monomial triples are NOT "every function of this n")
 PLAN["C15"]["kani_scope"] = dict([(r"from_lut_n7_mono", "bounded(n = 7, two-word tables: the 16 positive monomials of this range, one concrete table at a time)")]
                                  + list(PLAN["C15"]["kani_scope"].items()))
+
+PLAN["C13"]["harness_timeout"] = {"quick": 900, "thorough": 3600}
